@@ -347,3 +347,64 @@ Proof.
     + pose proof (aexec_safe afallback_rule (negb (is_ra a)) rg m) as He.
       destruct (aexec afallback_rule (negb (is_ra a)) rg m). exact He.
 Qed.
+
+(* ---------- the same with "returns" in place of "safe" ---------- *)
+Theorem unwind_frame_x_total_outside_dep u c a rg m :
+  cache_ok c -> faddr_wf a = true ->
+  match o_res _ _ (unwind_frame_x u c a rg m) with
+  | Ok _ | Err _ => True
+  | Panic s => s = S_pe_dep
+  | Hang => False
+  end.
+Proof.
+  intros Hc Hw. destruct (unwind_frame_x_safe u c a rg m Hc Hw) as [H _].
+  destruct (o_res _ _ (unwind_frame_x u c a rg m)) as [x|e|s|]; cbn in H; auto.
+  destruct s; try discriminate; reflexivity.
+Qed.
+
+Definition cb_ret_a {G} (cr : cb_result arule G) : Prop :=
+  match cr with CbPanic _ | CbHang => False | _ => True end.
+
+Lemma row_step_a64_ret rw first rg m : cb_ret_a (row_step_a64 rw first rg m).
+Proof.
+  unfold row_step_a64. destruct (translate_a64 rw); [exact I|].
+  unfold generic_a64.
+  repeat match goal with
+         | |- context [match ?x with _ => _ end] => destruct x
+         | |- context [if ?x then _ else _] => destruct x
+         end; exact I.
+Qed.
+
+Lemma cb_a64_ret md first rel rg m : cb_ret_a (fst (cb_a64 md first rel rg m)).
+Proof.
+  unfold cb_a64. destruct (mdat md).
+  - exact I.
+  - apply (cb_dwarf_safe arule aregs cb_ret_a); [apply row_step_a64_ret | exact I | intros; exact I].
+  - exact I.
+Qed.
+
+Theorem unwind_frame_a_returns u c a rg m :
+  faddr_wf a = true -> returns (o_res _ _ (unwind_frame_a u c a rg m)) = true.
+Proof.
+  intros Hwf. unfold unwind_frame_a, unwind_frame.
+  assert (Hl : exists x, lookup_address a = Ok x).
+  { destruct a as [x|x]; cbn [lookup_address faddr_wf] in *; [eexists; reflexivity|].
+    unfold sub64p. destruct (1 <=? x) eqn:E; [eexists; reflexivity | lia]. }
+  destruct Hl as [x ->].
+  destruct (cache_lookup arule c x (gen _ u)) as [[r|slot] c1].
+  - pose proof (aexec_total r (negb (is_ra a)) rg m) as He.
+    destruct (aexec r (negb (is_ra a)) rg m). exact He.
+  - destruct (find_module_ok (mods _ u) x) as [r ->]. destruct r as [[md rel]|].
+    + pose proof (cb_a64_ret md (negb (is_ra a)) rel rg m) as Hs.
+      destruct (cb_a64 md (negb (is_ra a)) rel rg m) as [cr ef]. cbn [fst] in Hs.
+      destruct cr; cbn [cb_ret_a] in Hs; try contradiction.
+      * pose proof (aexec_total r (negb (is_ra a)) rg m) as He.
+        destruct (aexec r (negb (is_ra a)) rg m). exact He.
+      * cbn. destruct (ra =? 0); reflexivity.
+      * pose proof (aexec_total afallback_rule (negb (is_ra a)) rg0 m) as He.
+        destruct (aexec afallback_rule (negb (is_ra a)) rg0 m). exact He.
+      * pose proof (aexec_total afallback_rule (negb (is_ra a)) rg0 m) as He.
+        destruct (aexec afallback_rule (negb (is_ra a)) rg0 m). exact He.
+    + pose proof (aexec_total afallback_rule (negb (is_ra a)) rg m) as He.
+      destruct (aexec afallback_rule (negb (is_ra a)) rg m). exact He.
+Qed.
